@@ -258,6 +258,38 @@ fn fail_checks(rep: &Report, world: &World, nodes: &[Node], sites: &[(String, Ve
             );
             return;
         }
+        // (3b) the same when the caller has consumed something through this reader before the call
+        // (container framing, padding): the reader must come back to where the caller left it
+        for (prefix, consume_bits) in [(vec![0x5Au8], 8u32), (vec![0xC3, 0x3C, 0x99], 24), (vec![0x5A, 0xC0], 12)] {
+            let mut src2 = prefix.clone();
+            src2.extend_from_slice(&src);
+            let mut rd2 = H263Reader::from_source(&src2[..]);
+            if rd2.skip_bits(consume_bits).is_err() {
+                continue;
+            }
+            let o = decode_with(&mut r.dec.st, &mut rd2);
+            rep.add_transitions(1);
+            match o {
+                Outcome::Panic(p) => {
+                    rep.violation(&panic_sig(&p), format!("state after {labels:?}, input '{name}' after {consume_bits} consumed bits: panic {p}"), replay_steps.clone());
+                    return;
+                }
+                Outcome::Ok => continue,
+                Outcome::Err(_) => {}
+            }
+            let got = drain(&mut rd2);
+            let all = crate::bits::bits_of(&src2);
+            if state_key(&r.dec.st) != key0 || got != all[consume_bits as usize..] {
+                let mut rv = replay_steps.clone();
+                rv["consumed_prefix"] = json!({"bytes": hex(&prefix), "bits": consume_bits});
+                rep.violation(
+                    &format!("C05/reader-not-rewound-after-consumed-prefix[{class}]"),
+                    format!("state after {labels:?}: the caller consumed {consume_bits} bits, the call on '{name}' failed, and the reader then delivers {} bits where {} remain after the prefix (or the decoder state changed)", got.len(), all.len() - consume_bits as usize),
+                    rv,
+                );
+                return;
+            }
+        }
         // failing twice changes nothing either
         // (the same bytes, sentinel included: whether an input fails can depend on what follows it)
         let o2 = decode_bytes(&mut r.dec.st, &src);
